@@ -30,3 +30,23 @@ package xar
 //@   loop 0 invariant @a_member_with_archived_data_is_gathered_when_it_is_visited rangeindex >= 0 && dirFiles[rangeindex].Length != 0 ==> \
 //@        len(*dataFiles) >= 1 && (*dataFiles)[len(*dataFiles) - 1] == dirFiles[rangeindex]
 //@   modifies *dataFiles, mem(*dataFiles)
+//@
+//@ func checkFile
+//@   property C02
+//@   modifies any bytes.Buffer, any bytes.Reader
+//@   ghost eq bool = false
+//@   ghost copied int = -1
+//@   before call io.NewSectionReader(src, off, n): assert @archived_bytes_of_the_member_are_hashed src == heap && off == f.Offset && n == f.Length
+//@   on call io.Copy(_, _) ret (n, e): copied = ite(e == nil, n, -1)
+//@   on call crypto/hmac.Equal(a, b) ret (ok): eq = ok && sameslice(a, expected) && sameslice(b, calculated)
+//@   ensures @checksum_of_the_whole_member_compared ret0 == nil ==> eq && copied == f.Length
+//@
+//@ func (*XAR).checkFiles
+//@   property C02
+//@   requires x != nil && x.toc != nil
+//@   ghost checked int = 0
+//@   before call gatherDataFiles(files, out): assert @members_taken_from_the_table_of_contents sameslice(files, x.toc.Files) && out == addr(dataFiles)
+//@   on call checkFile(h, f) ret (e): checked = checked + ite(e == nil && h == x.heap, 1, 0)
+//@   before call checkFile(_, f): assert @members_checked_in_list_order f == dataFiles[checked]
+//@   ensures @every_gathered_member_checked ret0 == nil ==> checked == len(dataFiles)
+//@   loop 0 sig "for _, f := range dataFiles" invariant -1 <= rangeindex && rangeindex < len(dataFiles) && checked == rangeindex + 1
